@@ -427,6 +427,9 @@ func (p *Path) visitInstr(fr *frame, instr ssa.Instruction) continuation {
 	case *ssa.DebugRef:
 
 	case *ssa.UnOp:
+		if p.fineFuncs != nil && instr.Op == token.MUL && p.fineFuncs[fr.fn.String()] && p.sharedAddr(instr.X) {
+			p.schedPoint("load")
+		}
 		fr.env[instr] = p.unop(fr, instr, fr.get(instr.X))
 
 	case *ssa.BinOp:
@@ -482,6 +485,9 @@ func (p *Path) visitInstr(fr *frame, instr ssa.Instruction) continuation {
 		p.chanSend(fr.get(instr.Chan).(*chanV), fr.get(instr.X))
 
 	case *ssa.Store:
+		if p.fineFuncs != nil && p.fineFuncs[fr.fn.String()] && p.sharedAddr(instr.Addr) {
+			p.schedPoint("store")
+		}
 		p.store(fr.get(instr.Addr), fr.get(instr.Val))
 
 	case *ssa.If:
@@ -586,6 +592,19 @@ func (p *Path) visitInstr(fr *frame, instr ssa.Instruction) continuation {
 		panic(p.unsupported(fmt.Sprintf("instruction %T", instr)))
 	}
 	return kNext
+}
+
+// sharedAddr: can the address refer to memory another goroutine may see? (not a non-escaping local)
+func (p *Path) sharedAddr(a ssa.Value) bool {
+	switch x := a.(type) {
+	case *ssa.Alloc:
+		return x.Heap
+	case *ssa.FieldAddr:
+		return p.sharedAddr(x.X)
+	case *ssa.IndexAddr:
+		return p.sharedAddr(x.X)
+	}
+	return true
 }
 
 // enterBlock evaluates phis of the new block (parallel assignment).
